@@ -9,6 +9,7 @@ import FileD.Lemmas.Dec.Postgres
 import FileD.Lemmas.Dec.Syslog3164
 import FileD.Lemmas.Dec.CSV
 import FileD.Lemmas.Dec.Nginx
+import FileD.Lemmas.Dec.Syslog5424
 namespace FileD.PropsC12F
 open FileD GoSlice FileD.Dec
 
@@ -65,6 +66,55 @@ example : Syslog3164.decode false false (Syslog3164.render [51, 52]
       [79, 99, 116, 32, 49, 49, 32, 50, 50, 58, 49, 52, 58, 49, 53] [104] [97] [49] [109] ++ [NL])
     = .ok (some ⟨[51, 52], [52], [50], [79, 99, 116, 32, 49, 49, 32, 50, 50, 58, 49, 52, 58, 49, 53],
                  [104], [97], [49], [109]⟩) := by rfl
+
+/-- **syslog RFC5424**, NILVALUE structured data: `<pri>ver ts host app procid msgid - msg`, with and
+    without the trailing newline. An empty field is written as the NILVALUE `-` (`nilOr`); a
+    present field is free of spaces and is not literally `-` (`FieldOK`); `pri` ≤ 3 digits with value
+    ≤ 191; `ver` digits; `ts` empty or accepted by the decoder's `validateTimestamp`; `msg`
+    arbitrary (a leading BOM is removed: `stripBom`), without `nl` not ending in a newline. -/
+theorem s5424_fields (facStr sevStr nl : Bool) (pri ver ts host app procid msgid msg : Bytes) (p : Int)
+    (hpri : atoi pri = some p) (hpl : pri.length ≤ 3) (hp : p ≤ 191)
+    (hver : (atoi ver).isSome)
+    (hts : ts = [] ∨ (SP ∉ ts ∧ Syslog5424.validateTimestamp ts = .ok true))
+    (hhost : Syslog5424.FieldOK host) (happ : Syslog5424.FieldOK app) (hproc : Syslog5424.FieldOK procid)
+    (hmsgid : Syslog5424.FieldOK msgid)
+    (hnl : nl = false → msg.getLast? ≠ some NL) :
+    Syslog5424.decode facStr sevStr ([cLt] ++ pri ++ [cGt] ++ ver ++ [SP] ++ Syslog5424.nilOr ts ++ [SP] ++
+        Syslog5424.nilOr host ++ [SP] ++ Syslog5424.nilOr app ++ [SP] ++ Syslog5424.nilOr procid ++ [SP] ++
+        Syslog5424.nilOr msgid ++ [SP, cMinus, SP] ++ msg ++ (if nl then [NL] else [])) =
+      .ok (some ⟨pri, Syslog.facility p facStr, Syslog.severity p sevStr, ver, ts, host, app, procid, msgid,
+                 Syslog5424.stripBom msg, []⟩) :=
+  Syslog5424.decode_fields facStr sevStr nl pri ver ts host app procid msgid msg p hpri hpl hp hver hts hhost happ hproc hmsgid hnl
+
+/-- **syslog RFC5424**, one structured-data element `[id k="v"]`: `id` ≥ 2 bytes without space;
+    `k` free of `] " space =`; `v` free of `] "` and not ending in a backslash; the message must not
+    start with a space (after an element the decoder eats one more space than after `-`). -/
+theorem s5424_fields_sd (facStr sevStr nl : Bool) (pri ver ts host app procid msgid id k v msg : Bytes) (p : Int)
+    (hpri : atoi pri = some p) (hpl : pri.length ≤ 3) (hp : p ≤ 191)
+    (hver : (atoi ver).isSome)
+    (hts : ts = [] ∨ (SP ∉ ts ∧ Syslog5424.validateTimestamp ts = .ok true))
+    (hhost : Syslog5424.FieldOK host) (happ : Syslog5424.FieldOK app) (hproc : Syslog5424.FieldOK procid)
+    (hmsgid : Syslog5424.FieldOK msgid)
+    (hid : SP ∉ id) (hidl : 2 ≤ id.length)
+    (hk : ∀ c ∈ k, c ≠ cRBr ∧ c ≠ cQuote ∧ c ≠ SP ∧ c ≠ cEq)
+    (hv : ∀ c ∈ v, c ≠ cRBr ∧ c ≠ cQuote) (hvl : v.getLast? ≠ some cBackslash)
+    (hmsg : msg.head? ≠ some SP)
+    (hnl : nl = false → msg.getLast? ≠ some NL) :
+    Syslog5424.decode facStr sevStr ([cLt] ++ pri ++ [cGt] ++ ver ++ [SP] ++ Syslog5424.nilOr ts ++ [SP] ++
+        Syslog5424.nilOr host ++ [SP] ++ Syslog5424.nilOr app ++ [SP] ++ Syslog5424.nilOr procid ++ [SP] ++
+        Syslog5424.nilOr msgid ++ [SP] ++
+        ([cLBr] ++ id ++ [SP] ++ k ++ [cEq, cQuote] ++ v ++ [cQuote, cRBr]) ++ [SP] ++ msg ++
+        (if nl then [NL] else [])) =
+      .ok (some ⟨pri, Syslog.facility p facStr, Syslog.severity p sevStr, ver, ts, host, app, procid, msgid,
+                 Syslog5424.stripBom msg, [(id, [(k, v)])]⟩) :=
+  Syslog5424.decode_sd_one facStr sevStr nl pri ver ts host app procid msgid id k v msg p hpri hpl hp hver hts
+    hhost happ hproc hmsgid hid hidl hk hv hvl hmsg hnl
+
+-- `<165>1 2003-10-11T22:14:15.003Z host app 10 ID47 [ab k="v"] hi`
+example : Syslog5424.decode false false [60,49,54,53,62,49,32, 50,48,48,51,45,49,48,45,49,49,84,50,50,58,49,52,58,49,53,46,48,48,51,90,32,
+      104,111,115,116,32, 97,112,112,32, 49,48,32, 73,68,52,55,32, 91,97,98,32,107,61,34,118,34,93,32, 104,105] =
+    .ok (some ⟨[49,54,53], [50,48], [53], [49], [50,48,48,51,45,49,48,45,49,49,84,50,50,58,49,52,58,49,53,46,48,48,51,90],
+      [104,111,115,116], [97,112,112], [49,48], [73,68,52,55], [104,105], [([97,98], [([107], [118])])]⟩) := by rfl
 
 /-- **nginx error log**: `date clock [level] pid#tid: msg`, with and without the trailing newline.
     `date`, `clock`, `level` free of spaces, `level` non-empty, `pid` / `tid` free of space `#` `:`;
